@@ -2,7 +2,7 @@
 # usage: seed_verify.sh <ID> <variant dir>      e.g. seed_verify.sh C06 /tmp/seed-C06/a
 # Confirms, in the scratch worktree /tmp/wt-<ID>, that the seeded change applies, compiles, passes the
 # project's whole test suite, and that its demonstration fails with it and passes without it.
-ID="$1"; DIR="$2"; WT=/tmp/wt-$ID
+ID="$1"; DIR="$2"; WT="${3:-/tmp/wt-$ID}"
 export GOFLAGS=-mod=mod GOPROXY=off
 cd "$WT" || exit 2
 git checkout -q -- . ; git clean -fdxq
